@@ -300,6 +300,19 @@ class SymTimeDelta:
     def total_seconds(self):
         return self.secs
 
+    # the normalised fields of datetime.timedelta: days (floor), 0 <= seconds < 86400, 0 <= microseconds < 10^6
+    @property
+    def days(self):
+        return (self.secs / 86400).floor()
+
+    @property
+    def seconds(self):
+        return self.secs.floor() - self.days * 86400
+
+    @property
+    def microseconds(self):
+        return ((self.secs - self.secs.floor().as_real()) * 1_000_000).floor()
+
     def __add__(self, o):
         if isinstance(o, (_real_dt, SymInstant)):
             return SymInstant.of(o) + self
